@@ -17,6 +17,7 @@ import (
 	"strings"
 
 	"gorm.io/gorm"
+	"gorm.io/gorm/clause"
 
 	"verif/core"
 	"verif/pred"
@@ -44,6 +45,10 @@ func load(rows []pred.Row) {
 		if _, err := H.SQL.Exec(q, args...); err != nil {
 			panic(err)
 		}
+	}
+	// aux: one row per row of rws (rid = id, lvl = a), for chains that carry joins
+	if _, err := H.SQL.Exec("CREATE TABLE IF NOT EXISTS aux(rid integer primary key, lvl integer); DELETE FROM aux; INSERT INTO aux(rid, lvl) SELECT id, a FROM rws"); err != nil {
+		panic(err)
 	}
 }
 
@@ -667,6 +672,59 @@ func cmpInt(a, b int64) int {
 // sharedBase: the read paths of one chain as an application writes them - one reusable base, handles
 // derived from it first, the base used again, the derived handles run afterwards. 0..3 Order calls on
 // the base (none of them on the key) leave the clause's slice with or without spare capacity.
+// joined: the chain carries a hand-built FROM clause with an inner join (a filter: lvl >= x) and a Joins() call
+// (a left join that filters nothing) and is executed more than once: Count then Find on the chain value, Find
+// twice, and a handle derived from the executed chain. Every execution returns the chain's rows with lvl >= x.
+func (k *checker) joined(matching []pred.Row) {
+	r := k.c.R
+	cc := k.cc
+	if len(cc.calls) != 0 {
+		return
+	}
+	x := int64(r.Intn(4))
+	var want []pred.Row
+	for _, m := range matching {
+		if m.A >= x {
+			want = append(want, m)
+		}
+	}
+	want = sortRows(want, "id")
+	mk := func() *gorm.DB {
+		root := H.DB.Session(&gorm.Session{})
+		from := clause.From{Joins: []clause.Join{{Type: clause.InnerJoin, Table: clause.Table{Name: "aux", Alias: "x1"},
+			ON: clause.Where{Exprs: []clause.Expression{clause.Expr{SQL: "x1.rid = rws.id AND x1.lvl >= ?", Vars: []interface{}{x}}}}}}}
+		cq := cc
+		cq.order = ""
+		return cq.build(root.Model(&pred.Row{}).Clauses(from).Joins("LEFT JOIN aux x2 ON x2.rid = rws.id")).Order("rws.id")
+	}
+	what := fmt.Sprintf("%s with Clauses(From{INNER JOIN aux x1 ON ... x1.lvl >= %d}).Joins(LEFT JOIN aux x2)", cc.desc(), x)
+	check := func(step string, res *gorm.DB, got []pred.Row) {
+		if res.Error != nil {
+			k.add("%s: %s error %v", what, step, res.Error)
+		} else if !rowsEq(got, want) {
+			k.add("%s: %s returned ids %v, the chain run once returns %v", what, step, ids(got), ids(want))
+		}
+	}
+	// (a) Count, then Find on the chain value
+	tx := mk()
+	var n int64
+	if res := tx.Count(&n); res.Error != nil {
+		k.add("%s: Count error %v", what, res.Error)
+	} else if n != int64(len(want)) {
+		k.add("%s: Count=%d, reference %d", what, n, len(want))
+	}
+	var a1 []pred.Row
+	check("Find after Count on the chain value", tx.Find(&a1), a1)
+	// (b) Find twice, then through a handle derived from the executed chain
+	tx = mk()
+	var b1, b2, b3 []pred.Row
+	check("first Find", tx.Find(&b1), b1)
+	check("second Find on the chain value", tx.Find(&b2), b2)
+	h := tx.Session(&gorm.Session{})
+	check("Find through a Session derived from the executed chain", h.Find(&b3), b3)
+	k.c.Inc("joined_chains_executed_repeatedly")
+}
+
 func (k *checker) sharedBase(matching []pred.Row) {
 	r := k.c.R
 	root := H.DB.Session(&gorm.Session{})
@@ -1001,6 +1059,7 @@ func run(c *core.Ctx) {
 		k := &checker{c: c, cc: cc, table: table}
 		k.readPaths(want, mt)
 		k.sharedBase(mt)
+		k.joined(mt)
 		c.Inc("read_path_comparisons")
 		if report(k, "ReadPaths") {
 			continue
